@@ -6,7 +6,7 @@
   Reader{buf, r, w, err, lastByte, lastRuneSize, TotalRead}:  only `buf[0:r]` (reachable again through
   UnreadByte / ReadLine's `b.r--`) and `buf[r:w]` are ever observable, so the model keeps
   `pre = buf[0:r]`, `cur = buf[r:w]`, `cap = len(buf)`;  `r = pre.length`, `w = r + cur.length`.
-  ReadRune/UnreadRune/WriteRune (UTF-8 decoding) are not modelled; `lastRuneSize` is then always -1.
+  ReadRune/UnreadRune/WriteRune are modelled with an executable mirror of utf8.FullRune/DecodeRune/EncodeRune.
 
   The underlying io.Reader is a script: a list of `(chunk, err)`; one `Read(p)` returns the head chunk
   (or its first `len(p)` bytes, keeping the rest) and the error code that comes with its last byte;
@@ -15,7 +15,7 @@
   `err`; an exhausted script accepts everything.
 
   Error codes: 0 nil, 1 io.EOF, 2 source error, 3 ErrBufferFull, 4 ErrInvalidUnreadByte,
-  6 io.ErrShortWrite, 7 sink error, 98 panic, 99 fuel (unreachable).
+  6 io.ErrShortWrite, 7 sink error, 8 ErrInvalidUnreadRune, 98 panic, 99 fuel (unreachable).
 -/
 namespace BfeVerif.C22
 
@@ -52,6 +52,7 @@ structure Reader where
   cur : Bytes
   err : Nat
   lastByte : Option UInt8
+  lastRune : Option Nat := none   -- lastRuneSize (`none` = -1)
   total : Nat
   src : Script
   consumed : Bytes      -- ghost: bytes handed out and not un-read
@@ -63,7 +64,8 @@ def Reader.new (cap : Nat) (src : Script) : Reader :=
 
 /-- `Reset(r)`: keeps the buffer, forgets everything else, counter back to 0 -/
 def Reader.reset (b : Reader) (src : Script) : Reader :=
-  { cap := b.cap, pre := [], cur := [], err := 0, lastByte := none, total := 0, src := src, consumed := [] }
+  { cap := b.cap, pre := [], cur := [], err := 0, lastByte := none, lastRune := none, total := 0, src := src,
+    consumed := [] }
 
 def Reader.fuel (b : Reader) : Nat := srcMeasure b.src + 2
 
@@ -81,7 +83,8 @@ def Reader.consume (b : Reader) (k cnt : Nat) : Reader :=
   let out := b.cur.take k
   { b with pre := b.pre ++ out, cur := b.cur.drop k, total := b.total + cnt,
            consumed := b.consumed ++ out,
-           lastByte := if out.isEmpty then b.lastByte else out.getLast? }
+           lastByte := if out.isEmpty then b.lastByte else out.getLast?,
+           lastRune := if out.isEmpty then b.lastRune else none }
 
 def Reader.peekLoop : Nat → Reader → Nat → Reader
   | 0, b, _ => b
@@ -108,7 +111,8 @@ def Reader.read (b : Reader) (n : Nat) : Reader × Bytes × Nat :=
       -- large read, empty buffer: read directly into p
       let (d, e, src') := srcRead b.src n
       ({ b with src := src', err := 0, total := b.total + d.length, consumed := b.consumed ++ d,
-                lastByte := if d.isEmpty then b.lastByte else d.getLast? }, d, e)
+                lastByte := if d.isEmpty then b.lastByte else d.getLast?,
+                lastRune := if d.isEmpty then b.lastRune else none }, d, e)
     else
       let b := b.fill
       if b.cur.isEmpty then (b.clearErr, [], b.err) else b.copyOut n
@@ -121,20 +125,104 @@ def Reader.readByteLoop : Nat → Reader → Reader × Option UInt8 × Nat
     | c :: _ => (b.consume 1 1, some c, 0)
     | [] => if b.err ≠ 0 then (b.clearErr, none, b.err) else readByteLoop f b.fill
 
-def Reader.readByte (b : Reader) : Reader × Option UInt8 × Nat := Reader.readByteLoop b.fuel b
+def Reader.readByte (b : Reader) : Reader × Option UInt8 × Nat :=
+  Reader.readByteLoop b.fuel { b with lastRune := none }      -- `b.lastRuneSize = -1` comes first
 
 /-- `UnreadByte` -/
 def Reader.unreadByte (b : Reader) : Reader × Nat :=
   match b.cur, b.lastByte with
   | [], some x =>
-    ({ b with pre := [], cur := [x], lastByte := none, total := b.total - 1,
+    ({ b with pre := [], cur := [x], lastByte := none, lastRune := none, total := b.total - 1,
               consumed := b.consumed.dropLast }, 0)
   | _, _ =>
     match b.pre.getLast? with
-    | none => (b, 4)
+    | none => ({ b with lastRune := none }, 4)
     | some y =>
-      ({ b with pre := b.pre.dropLast, cur := y :: b.cur, lastByte := none, total := b.total - 1,
-                consumed := b.consumed.dropLast }, 0)
+      ({ b with pre := b.pre.dropLast, cur := y :: b.cur, lastByte := none, lastRune := none,
+                total := b.total - 1, consumed := b.consumed.dropLast }, 0)
+
+/-! #### runes.  `fullRune` / `decodeRune` mirror Go's `utf8.FullRune` / `utf8.DecodeRune` (table `first`,
+    `acceptRanges`); the theorems use only `1 ≤ size ≤ len` of `decodeRune`. -/
+
+/-- (size, lo, hi of the second byte) for a lead byte; size 0 = ASCII, size 1 = invalid lead byte -/
+def utf8First (c : UInt8) : Nat × Nat × Nat :=
+  let x := c.toNat
+  if x < 0x80 then (0, 0, 0)
+  else if x < 0xC2 then (1, 0, 0)
+  else if x < 0xE0 then (2, 0x80, 0xBF)
+  else if x = 0xE0 then (3, 0xA0, 0xBF)
+  else if x = 0xED then (3, 0x80, 0x9F)
+  else if x < 0xF0 then (3, 0x80, 0xBF)
+  else if x = 0xF0 then (4, 0x90, 0xBF)
+  else if x < 0xF4 then (4, 0x80, 0xBF)
+  else if x = 0xF4 then (4, 0x80, 0x8F)
+  else (1, 0, 0)
+
+def isCont (c : UInt8) : Bool := 0x80 ≤ c.toNat && c.toNat ≤ 0xBF
+
+def fullRune (p : Bytes) : Bool :=
+  match p with
+  | [] => false
+  | c :: rest =>
+    let (sz, lo, hi) := utf8First c
+    if p.length ≥ sz then true
+    else match rest with
+      | [] => false
+      | b1 :: rest2 =>
+        if b1.toNat < lo || hi < b1.toNat then true
+        else match rest2 with
+          | [] => false
+          | b2 :: _ => !isCont b2
+
+/-- (rune, size) -/
+def decodeRune (p : Bytes) : Nat × Nat :=
+  match p with
+  | [] => (0xFFFD, 0)
+  | c :: rest =>
+    let (sz, lo, hi) := utf8First c
+    if sz = 0 then (c.toNat, 1)
+    else if sz = 1 then (0xFFFD, 1)
+    else if p.length < sz then (0xFFFD, 1)
+    else match rest with
+      | [] => (0xFFFD, 1)
+      | b1 :: rest2 =>
+        if b1.toNat < lo || hi < b1.toNat then (0xFFFD, 1)
+        else if sz = 2 then ((c.toNat % 32) * 64 + b1.toNat % 64, 2)
+        else match rest2 with
+          | [] => (0xFFFD, 1)
+          | b2 :: rest3 =>
+            if !isCont b2 then (0xFFFD, 1)
+            else if sz = 3 then ((c.toNat % 16) * 4096 + (b1.toNat % 64) * 64 + b2.toNat % 64, 3)
+            else match rest3 with
+              | [] => (0xFFFD, 1)
+              | b3 :: _ =>
+                if !isCont b3 then (0xFFFD, 1)
+                else ((c.toNat % 8) * 262144 + (b1.toNat % 64) * 4096 + (b2.toNat % 64) * 64 + b3.toNat % 64, 4)
+
+def Reader.readRuneLoop : Nat → Reader → Reader
+  | 0, b => b
+  | f + 1, b => if b.cur.length < 4 ∧ fullRune b.cur = false ∧ b.err = 0 then readRuneLoop f b.fill else b
+
+/-- `ReadRune`: (reader, rune, size, err) -/
+def Reader.readRune (b : Reader) : Reader × Nat × Nat × Nat :=
+  let b := Reader.readRuneLoop b.fuel b
+  match b.cur with
+  | [] => ({ b.clearErr with lastRune := none }, 0, 0, b.err)
+  | c :: _ =>
+    let rs := if c.toNat < 0x80 then (c.toNat, 1) else decodeRune b.cur
+    ({ b.consume rs.2 rs.2 with lastRune := some rs.2 }, rs.1, rs.2, 0)
+
+/-- `UnreadRune` (error code 8 = ErrInvalidUnreadRune) -/
+def Reader.unreadRune (b : Reader) : Reader × Nat :=
+  match b.lastRune with
+  | none => (b, 8)
+  | some k =>
+    if b.pre.isEmpty then (b, 8)
+    else
+      ({ b with pre := b.pre.take (b.pre.length - k), cur := b.pre.drop (b.pre.length - k) ++ b.cur,
+                total := if b.total ≥ k then b.total - k else b.total,
+                lastByte := none, lastRune := none,
+                consumed := b.consumed.take (b.consumed.length - k) }, 0)
 
 def Reader.readSliceLoop : Nat → Reader → UInt8 → Reader × Bytes × Nat
   | 0, b, _ => (b, [], 99)
@@ -274,6 +362,33 @@ def Writer.writeByte (b : Writer) (c : UInt8) : Writer × Nat :=
     if fe ≠ 0 then (b1, b1.err)
     else ({ b1 with buf := b1.buf ++ [c], accepted := b1.accepted ++ [c], total := b1.total + 1 }, 0)
 
+/-- `utf8.EncodeRune` / `string(r)` for a non-negative rune -/
+def encodeRune (r : Nat) : Bytes :=
+  if r < 0x80 then [UInt8.ofNat r]
+  else if r < 0x800 then [UInt8.ofNat (0xC0 + r / 64), UInt8.ofNat (0x80 + r % 64)]
+  else if (0xD800 ≤ r ∧ r ≤ 0xDFFF) ∨ r > 0x10FFFF then [0xEF, 0xBF, 0xBD]
+  else if r < 0x10000 then
+    [UInt8.ofNat (0xE0 + r / 4096), UInt8.ofNat (0x80 + (r / 64) % 64), UInt8.ofNat (0x80 + r % 64)]
+  else
+    [UInt8.ofNat (0xF0 + r / 262144), UInt8.ofNat (0x80 + (r / 4096) % 64), UInt8.ofNat (0x80 + (r / 64) % 64),
+      UInt8.ofNat (0x80 + r % 64)]
+
+def Writer.appendRune (b : Writer) (enc : Bytes) : Writer × Nat × Nat :=
+  ({ b with buf := b.buf ++ enc, accepted := b.accepted ++ enc, total := b.total + enc.length }, enc.length, 0)
+
+/-- `WriteRune(r)`: (writer, size, err) -/
+def Writer.writeRune (b : Writer) (r : Nat) : Writer × Nat × Nat :=
+  if r < 0x80 then
+    let (b', e) := b.writeByte (UInt8.ofNat r)
+    if e ≠ 0 then (b', 0, e) else (b', 1, 0)
+  else if b.err ≠ 0 then (b, 0, b.err)
+  else if b.available < 4 then
+    let b1 := b.flush.1
+    if b1.err ≠ 0 then (b1, 0, b1.err)
+    else if b1.available < 4 then Writer.write false b1 (encodeRune r)   -- "buffer is silly small"
+    else b1.appendRune (encodeRune r)
+  else b.appendRune (encodeRune r)
+
 /-- loop of `ReadFrom`: (writer, n, err, source') ; `early = true` marks the return on a flush error -/
 def Writer.readFromLoop : Nat → Writer → Script → Nat → Writer × Nat × Nat × Script × Bool
   | 0, b, src, n => (b, n, 99, src, false)
@@ -300,6 +415,7 @@ def Writer.readFrom (b : Writer) (src : Script) : Writer × Nat × Nat :=
 
 inductive ROp
   | rd (n : Nat) | rb | ub | pk (n : Nat) | rs (d : UInt8) | rl | wt (ws : WScript) | rbs (d : UInt8)
+  | rr | ur
 deriving Repr
 
 def Reader.apply (b : Reader) : ROp → Reader
@@ -311,9 +427,11 @@ def Reader.apply (b : Reader) : ROp → Reader
   | .rl => b.readLine.1
   | .wt ws => (b.writeTo ws).1
   | .rbs d => (b.readBytes d).1
+  | .rr => b.readRune.1
+  | .ur => b.unreadRune.1
 
 inductive WOp
-  | w (p : Bytes) | s (p : Bytes) | wb (c : UInt8) | fl | rf (src : Script)
+  | w (p : Bytes) | s (p : Bytes) | wb (c : UInt8) | fl | rf (src : Script) | wr (r : Nat)
 deriving Repr
 
 def Writer.apply (b : Writer) : WOp → Writer
@@ -322,5 +440,6 @@ def Writer.apply (b : Writer) : WOp → Writer
   | .wb c => (b.writeByte c).1
   | .fl => b.flush.1
   | .rf src => (b.readFrom src).1
+  | .wr r => (b.writeRune r).1
 
 end BfeVerif.C22
